@@ -576,7 +576,7 @@ fn qparts(c: &Ctx, v: &V, parts: &[Part], prev: Prev) -> R<Vec<M>> {
                 }
             }
         }
-        Part::VarKey(_) | Part::KeysFilter { .. } => Err(ModelErr::Unsupported("interpolation / keys filter".into())),
+        Part::VarKey(_) | Part::KeysFilter { .. } | Part::KeysFilterVar { .. } => Err(ModelErr::Unsupported("interpolation / keys filter".into())),
     }
 }
 
